@@ -560,7 +560,7 @@ struct KSeq
                (c.i == c.j ? " (a and b are two proxies of this one element)" : ", element " + vf::str(c.j) + (c.pj ? " present" : " missing")) +
                "; a = proxy of element " + vf::str(c.i) + ", b = proxy of element " + vf::str(c.j) + ", both obtained by " + path_name[c.path];
     }
-    static bool expected(int f) { return f <= F_MEM_AA; }      // xoptional::swap only: nothing is found for lvalue or temporary proxies through `using std::swap`
+    static bool expected(int f) { return f <= F_ADL_AA; }      // xoptional::swap and swap(xoptional&, xoptional&) on named proxies; nothing accepts the temporaries v[i], v[j] (nor iter_swap)
 };
 #endif
 
@@ -574,7 +574,7 @@ struct FamOpt
     template <class V, class F> static auto mk(V&& v, F&& f) { return xtl::optional(std::forward<V>(v), std::forward<F>(f)); }
     template <class W> static decltype(auto) value(W& w) { return w.value(); }
     template <class W> static decltype(auto) flag(W& w) { return w.has_value(); }
-    static bool adl_lv(bool vr, bool fr) { return !vr && !fr; }    // reference closures: same-type assignment is deleted, the generic std::swap is not viable
+    static bool adl_lv(bool, bool) { return true; }                // swap(xoptional&, xoptional&) forwards to the member (before /repo 1024237: only two values, through the generic std::swap)
 };
 struct FamMask
 {
@@ -662,7 +662,7 @@ struct FamOpt
     template <class V, class F> static auto mk(V&& v, F&& f) { return xtl::optional(std::forward<V>(v), std::forward<F>(f)); }
     template <class W> static decltype(auto) value(W& w) { return w.value(); }
     template <class W> static bool flag(W& w) { return bool(w.has_value()); }
-    static bool adl_lv(bool vr) { return !vr; }
+    static bool adl_lv(bool) { return true; }
 };
 struct FamMask
 {
